@@ -39,14 +39,14 @@ structure Caps where
 
 def capsOf (sid : String) : Option Caps :=
   match sid with
-  | "rank9" => some { rank := true, numbits := true, count := true }
+  | "rank9" | "r9_map" => some { rank := true, numbits := true, count := true }
   | "rs" => some { rank := true, numbits := true }
   | "sel9" => some { rank := true, numbits := true, count := true, select := true }
   | "sa" | "sa_new" | "sa_span" | "sac" => some { numbits := true, count := true, select := true }
   | "sza" | "sza_new" | "sza_span" | "szac" => some { numbits := true, count := true, selectZero := true }
-  | "sa_r9" => some { rank := true, numbits := true, count := true, select := true }
-  | "sza_sa" | "sa_sza" => some { numbits := true, count := true, select := true, selectZero := true }
-  | "sza_sa_r9" | "sza_sel9" | "szac_sac_r9" =>
+  | "sa_r9" | "sa_map" => some { rank := true, numbits := true, count := true, select := true }
+  | "sza_sa" | "sa_sza" | "sza_map" | "sa_map_sza" => some { numbits := true, count := true, select := true, selectZero := true }
+  | "sza_sa_r9" | "sza_sel9" | "szac_sac_r9" | "szac_map" =>
     some { rank := true, numbits := true, count := true, select := true, selectZero := true }
   | "ss" | "ss_new" => some { rank := true, numbits := true, select := true }
   | "szs" | "szs_new" => some { rank := true, numbits := true, selectZero := true }
